@@ -280,9 +280,16 @@ def generate(forest, path_s):
         a.emit(".value %d" % u["version"])
         tl = ".Labbrev_tab_%s - .Ldebug_abbrev0" % str(u.get("table", id(u))).replace("-", "m")
         if u["version"] >= 5:
-            a.emit(".byte %d" % (3 if u["kind"] == "pu" else 1))      # DW_UT_partial / DW_UT_compile
+            # DW_UT_compile 1, DW_UT_type 2, DW_UT_partial 3, DW_UT_skeleton 4; type units carry the signature of
+            # their type and the offset of its DIE, skeleton units the id of the split unit they stand for
+            a.emit(".byte %d" % {"pu": 3, "cu": 1, "tu": 2, "sk": 4}[u["kind"]])
             a.emit(".byte 8")
             a.emit(".long " + tl)
+            if u["kind"] == "tu":
+                a.emit(".quad %d" % u.get("signature", 0x1122334455667788 + ui))
+                a.emit(".long die_%d - %s" % (u.get("type_die", u["root"]["children"][0]["id"] if u["root"]["children"] else u["root"]["id"]), cu))
+            elif u["kind"] == "sk":
+                a.emit(".quad %d" % u.get("dwo_id", 0x99aabbccddeeff00 + ui))
         else:
             a.emit(".long " + tl)
             a.emit(".byte 8")
